@@ -81,6 +81,90 @@ def symbol_for(bases, rna=False):
     raise KeyError(bases)
 
 
+# ----------------------------------------------- IUPAC-aware reference models
+AMBIG = "RYMKWSBDHVN"
+PROTEIN_AMBIG = {"B": "DN", "Z": "EQ"}
+AA20 = "ACDEFGHIKLMNPQRSTVWY"
+
+
+def comp_symbol(c: str, rna: bool) -> str:
+    if c in "-?":
+        return c
+    return symbol_for([COMP[b] for b in IUPAC[c.replace("U", "T")]], rna)
+
+
+def model_rc_iupac(s: str, rna: bool) -> str:
+    return "".join(comp_symbol(c, rna) for c in reversed(s))
+
+
+def is_canonical(codon: str) -> bool:
+    return all(c in BASES for c in codon)
+
+
+def aa_set(table: str, codon: str) -> set:
+    c = codon.upper().replace("U", "T")
+    return {aa_of(table, "".join(p)) for p in itertools.product(*(IUPAC[b] for b in c))}
+
+
+def aa_symbol(aas: set) -> str:
+    """least degenerate protein symbol covering a set of amino acids (and '*')"""
+    if len(aas) == 1:
+        return next(iter(aas))
+    for sym, members in PROTEIN_AMBIG.items():
+        if aas == set(members):
+            return sym
+    return "X"
+
+
+def model_translate_x(table: str, s: str, start: int = 0) -> str:
+    """GeneticCode.translate of a gap-free sequence: a codon holding an ambiguity code gives 'X' (both implementations
+    document this)"""
+    s = s.upper().replace("U", "T")
+    out = []
+    for i in range(start, len(s) - 2, 3):
+        c = s[i : i + 3]
+        out.append(aa_of(table, c) if is_canonical(c) else "X")
+    return "".join(out)
+
+
+def model_get_translation_iupac(table, s, impl, include_stop, trim_stop, incomplete_ok):
+    """Sequence.get_translation of a gap-free sequence that may hold IUPAC ambiguity codes.
+    returns ('ok', protein) | ('raise', why) | None (behaviour not pinned, nothing asserted)"""
+    s = s.upper().replace("U", "T")
+    trimming = (trim_stop and not include_stop) if impl == "old" else trim_stop
+    if trimming:
+        if len(s) % 3:
+            if not incomplete_ok:
+                return ("raise", "length not divisible by 3 with strict trimming")
+        elif s and is_canonical(s[-3:]) and aa_of(table, s[-3:]) == "*":
+            s = s[:-3]
+    pep, unpinned = [], False
+    for i in range(0, len(s) - 2, 3):
+        c = s[i : i + 3]
+        if is_canonical(c):
+            aa = aa_of(table, c)
+            if aa == "*" and not include_stop:
+                return ("raise", "stop codon in translation")
+        elif impl == "new":
+            # documented: ambiguous codons are 'X' with incomplete_ok, AlphabetError without
+            if not incomplete_ok:
+                return ("raise", "ambiguous codon with incomplete_ok=False")
+            aa = "X"
+        else:
+            # old style resolves the codon and reports the least degenerate protein symbol; stop codons among
+            # the resolutions are dropped unless include_stop (tests/test_core/test_core_standalone.py::test_ambig_translate)
+            aas = aa_set(table, c)
+            if not include_stop:
+                aas.discard("*")
+            if not aas:
+                unpinned = True  # every resolution is a stop codon
+                aa = "?"
+            else:
+                aa = aa_symbol(aas)
+        pep.append(aa)
+    return None if unpinned else ("ok", "".join(pep))
+
+
 # ------------------------------------------------------------ sub: tables
 def exec_table(case) -> Soft:
     from cogent3.core import genetic_code as old_gc
@@ -121,6 +205,46 @@ def exec_table(case) -> Soft:
             s.eq(got, aa, "new/translate-codon-minus", f"code {cid}: rc of {codon} read on the minus strand")
         evals += 1
         s.extra_nontrivial.append(f"{cid}/{codon}")
+    # every IUPAC codon (15^3, DNA and RNA spelling): GeneticCode.translate gives 'X' for a codon holding an ambiguity
+    # code; old-style Sequence.get_translation resolves it to the least degenerate protein symbol (aa, B, Z, X)
+    from cogent3 import make_seq
+
+    iupac_codons = ["".join(p) for p in itertools.product(IUPAC, repeat=3)]
+    for rna in (False, True):
+        mtn = "rna" if rna else "dna"
+        spell = (lambda c: c.replace("T", "U")) if rna else (lambda c: c)
+        every = "".join(spell(c) for c in iupac_codons)
+        want_x = model_translate_x(table, every)
+        okc, got = s.call("old/translate-iupac", og.translate, every)
+        if okc:
+            s.eq(got, want_x, "old/translate-iupac", f"code {cid} {mtn}: all IUPAC codons")
+        if not rna:  # the new genetic code documents DNA strings
+            okc, got = s.call("new/translate-iupac", ng.translate, every)
+            if okc:
+                s.eq(got, want_x, "new/translate-iupac", f"code {cid}: all IUPAC codons")
+            okc, got = s.call("new/translate-iupac-minus", ng.translate, model_rc_iupac(every, False), 0, True)
+            if okc:
+                s.eq(got, want_x, "new/translate-iupac-minus", f"code {cid}: rc of all IUPAC codons read on the minus strand")
+        evals += 3 * len(iupac_codons)
+        for inc in (True, False):
+            # without include_stop, codons whose every resolution is a stop are rejected: leave them out
+            codons = [c for c in iupac_codons if inc or aa_set(table, c) != {"*"}]
+            text = "".join(spell(c) for c in codons)
+            want = model_get_translation_iupac(table, text, "old", inc, False, False)
+            okc, sq = s.call("old/make_seq", make_seq, text, name="q", moltype=mtn)
+            if okc and want is not None:
+                okc, got = s.call("old/seq.get_translation-iupac", lambda: str(sq.get_translation(gc=cid, include_stop=inc, trim_stop=False)))
+                if okc and got != want[1]:
+                    bad = [(codons[i], got[i : i + 1], want[1][i]) for i in range(len(codons)) if got[i : i + 1] != want[1][i]][:5]
+                    s.fail("old/seq.get_translation-iupac", f"code {cid} {mtn} include_stop={inc}: (codon, got, want) {bad}")
+            okc, sq = s.call("new/make_seq", make_seq, text, name="q", moltype=mtn, new_type=True)
+            want = model_get_translation_iupac(table, text, "new", inc, False, True)
+            if okc and want is not None and want[0] == "ok":
+                okc, got = s.call("new/seq.get_translation-iupac", lambda: str(sq.get_translation(gc=cid, include_stop=inc, trim_stop=False, incomplete_ok=True)))
+                if okc and got != want[1]:
+                    bad = [(codons[i], got[i : i + 1], want[1][i]) for i in range(len(codons)) if got[i : i + 1] != want[1][i]][:5]
+                    s.fail("new/seq.get_translation-iupac", f"code {cid} {mtn} include_stop={inc}: (codon, got, want) {bad}")
+            evals += 2 * len(codons)
     # codon sets
     okc, got = s.call("new/stop_codons", lambda: set(ng.stop_codons))
     if okc:
@@ -209,6 +333,61 @@ def exec_complement(case) -> Soft:
                     ok2, back = s.call(pre + "roundtrip", mt.degenerate_from_seq, "".join(res))
                 if ok2:
                     s.eq(back, want_sym, pre + "roundtrip", f"what(resolve({want_sym}))")
+    # --- every pair of IUPAC symbols (and the gap): can_match is "the base sets intersect", gaps match gaps only
+    from cogent3 import make_seq
+
+    def spell(c):
+        return c.replace("T", "U") if rna else c
+
+    sets = {spell(sym): {spell(b) for b in bases} for sym, bases in IUPAC.items()}
+    sets["-"] = {"-"}
+    for a, b in itertools.product(sets, repeat=2):
+        evals += 1
+        ok, got = s.call(pre + "can_match", mt.can_match, a, b)
+        if ok:
+            s.eq(bool(got), bool(sets[a] & sets[b]), pre + "can_match", f"can_match({a!r}, {b!r})")
+    every = "".join(sets)
+    ok, sq = s.call(pre + "make_seq", make_seq, every, name="a", moltype=case["mt"], new_type=impl == "new")
+    if ok:
+        ok, got = s.call(pre + "resolved_ambiguities", lambda: [set(x) for x in sq.resolved_ambiguities()])
+        if ok:
+            s.eq(got, [sets[c] for c in every], pre + "resolved_ambiguities", f"{every!r}.resolved_ambiguities()")
+        for sym in every:
+            ok, got = s.call(pre + "seq.can_match", lambda: [bool(sq[i : i + 1].can_match(sym)) for i in range(len(every))])
+            if ok:
+                s.eq(got, [bool(sets[c] & sets[sym]) for c in every], pre + "seq.can_match", f"each symbol of {every!r} .can_match({sym!r})")
+            evals += len(every)
+    degen = "".join(spell(c) for c in IUPAC)  # no gap: the implementations differ on whether a gap is "degenerate"
+    ok, sq = s.call(pre + "make_seq", make_seq, degen, name="a", moltype=case["mt"], new_type=impl == "new")
+    if ok:
+        ok, got = s.call(pre + "count_degenerate", lambda: int(sq.count_degenerate()))
+        if ok:
+            s.eq(got, len(IUPAC) - 4, pre + "count_degenerate", f"{degen!r}")
+        want_n = 1
+        for bases in IUPAC.values():
+            want_n *= len(bases)
+        ok, got = s.call(pre + "possibilities", lambda: int(sq.possibilities() if impl == "old" else sq.count_variants()))
+        if ok:
+            s.eq(got, want_n, pre + "possibilities", f"number of sequences matching {degen!r}")
+    for sym, bases in IUPAC.items():
+        ok, got = s.call(pre + "is_degenerate", mt.is_degenerate, spell(sym))
+        if ok:
+            s.eq(bool(got), len(bases) > 1, pre + "is_degenerate", f"is_degenerate({spell(sym)!r})")
+    if impl == "old":
+        import re
+
+        ok, pat = s.call(pre + "to_regex", mt.to_regex, degen)
+        if ok:
+            okc, rx = s.call(pre + "to_regex", re.compile, pat)
+            if okc:
+                # the pattern has one character (class) per symbol: probe each position with each base
+                canon_bases = [spell(b) for b in "ACGT"]
+                for i, sym in enumerate(degen):
+                    base_line = [sorted(sets[c])[0] for c in degen]
+                    for b in canon_bases:
+                        probe = base_line[:i] + [b] + base_line[i + 1 :]
+                        s.eq(bool(rx.fullmatch("".join(probe))), b in sets[sym], pre + "to_regex", f"to_regex({degen!r}) at symbol {sym!r} against base {b!r}")
+                        evals += 1
     s.evals = evals
     s.nontrivial = True
     return s
@@ -216,6 +395,83 @@ def exec_complement(case) -> Soft:
 
 def enum_complement(tier):
     return [{"mt": m, "impl": i} for m in ("dna", "rna") for i in ("old", "new")]
+
+
+# ------------------------------------------------- sub: protein ambiguity
+def exec_protein(case) -> Soft:
+    """B (Asx = D or N), Z (Glx = E or Q), X (any residue): resolving and re-encoding are mutual inverses"""
+    from cogent3 import make_seq
+    from cogent3.core import moltype as old_mt
+    from cogent3.core import new_moltype as new_mt
+
+    s = Soft("C12/protein/")
+    impl, mtn = case["impl"], case["mt"]
+    mt = (old_mt if impl == "old" else new_mt).get_moltype(mtn)
+    pre = f"{impl}/{mtn}/"
+    with_stop = mtn == "protein_with_stop"
+    ok, alpha = s.call(pre + "alphabet", lambda: [str(c) for c in mt.alphabet])
+    if not ok:
+        return s
+    s.check(set(AA20) <= set(alpha), pre + "alphabet", f"the 20 standard residues are canonical; got {alpha}")
+    s.eq("*" in alpha, with_stop, pre + "alphabet", "'*' canonical only with stop")
+    sets = {a: {a} for a in alpha}
+    sets["B"], sets["Z"], sets["X"] = set("DN"), set("EQ"), set(alpha)
+    evals = 0
+
+    def encode(residues):
+        if impl == "old":
+            return mt.what_ambiguity(list(residues))
+        return mt.degenerate_from_seq("".join(residues))
+
+    for sym, members in sets.items():
+        evals += 2
+        ok, res = s.call(pre + "resolve_ambiguity", mt.resolve_ambiguity, sym)
+        if ok:
+            s.eq(set(res), members, pre + "resolve_ambiguity", f"symbol {sym}")
+            s.eq(len(res), len(members), pre + "resolve_ambiguity", f"symbol {sym}: no repeats")
+            ok2, back = s.call(pre + "roundtrip", encode, sorted(res))
+            if ok2:
+                s.eq(back, sym, pre + "roundtrip", f"encode(resolve({sym}))")
+        ok, got = s.call(pre + "is_degenerate", mt.is_degenerate, sym)
+        if ok:
+            s.eq(bool(got), len(members) > 1, pre + "is_degenerate", f"symbol {sym}")
+        s.extra_nontrivial.append(f"{impl}/{mtn}/{sym}")
+    # every pair of canonical residues, and every triple extending a B or Z pair
+    subsets = [tuple(p) for p in itertools.combinations(sorted(alpha), 2)]
+    subsets += [tuple(sorted(set(m) | {a})) for m in ("DN", "EQ") for a in sorted(alpha) if a not in m]
+    subsets.append(tuple(sorted(alpha)))
+    for sub in subsets:
+        evals += 1
+        ok, got = s.call(pre + "what_ambiguity", encode, sub)
+        if ok:
+            s.eq(got, aa_symbol(set(sub)), pre + "what_ambiguity", f"residues {''.join(sub)}")
+    # matching: two symbols can match when their residue sets intersect; gaps match gaps only
+    msets = dict(sets)
+    msets["-"] = {"-"}
+    for a, b in itertools.product(msets, repeat=2):
+        evals += 1
+        ok, got = s.call(pre + "can_match", mt.can_match, a, b)
+        if ok:
+            s.eq(bool(got), bool(msets[a] & msets[b]), pre + "can_match", f"can_match({a!r}, {b!r})")
+    every = "".join(sets)
+    ok, sq = s.call(pre + "make_seq", make_seq, every, name="a", moltype=mtn, new_type=impl == "new")
+    if ok:
+        ok, got = s.call(pre + "resolved_ambiguities", lambda: [set(x) for x in sq.resolved_ambiguities()])
+        if ok:
+            s.eq(got, [sets[c] for c in every], pre + "resolved_ambiguities", f"{every!r}.resolved_ambiguities()")
+        ok, got = s.call(pre + "count_degenerate", lambda: int(sq.count_degenerate()))
+        if ok:
+            s.eq(got, 3, pre + "count_degenerate", f"{every!r}")
+        ok, got = s.call(pre + "possibilities", lambda: int(sq.possibilities() if impl == "old" else sq.count_variants()))
+        if ok:
+            s.eq(got, 4 * len(alpha), pre + "possibilities", f"number of sequences matching {every!r}")
+    s.evals = evals
+    s.nontrivial = True
+    return s
+
+
+def enum_protein(tier):
+    return [{"mt": m, "impl": i} for m in ("protein", "protein_with_stop") for i in ("old", "new")]
 
 
 @st.composite
@@ -264,6 +520,387 @@ def exec_rc(case) -> Soft:
             if ok:
                 s.eq(str(c), want_rc[::-1], f"{impl}/seq.complement", f"{seq!r}.complement()")
     s.nontrivial = len(set(seq) - set("ACGTU")) > 0 and len(seq) > 1
+    return s
+
+
+# ------------------------------------------- sub: frames (app/translate.py)
+def _all_codons():
+    return ["".join(b) for b in itertools.product(BASES, repeat=3)]
+
+
+def _offframe_rich(sense):
+    """sense codons that tend to put stop codons into the other five frames"""
+    rich = [c for c in sense if c in ("TTA", "CTA", "TCA") or c[1:] in ("TA", "TG") or c[:2] in ("AA", "AG", "GA")]
+    return rich or sense
+
+
+@st.composite
+def _draw_nuc_seq(draw, table, min_codons=1, max_codons=11, designs=("orf", "orf", "orf_rc", "orf_rc", "random", "stoprich", "double_stop")):
+    codons = _all_codons()
+    sense = [c for c in codons if aa_of(table, c) != "*"]
+    stops = [c for c in codons if aa_of(table, c) == "*"]
+    rich = _offframe_rich(sense)
+    bases = st.sampled_from(BASES)
+    design = draw(st.sampled_from(designs))
+    if design in ("random", "stoprich"):
+        n = draw(st.integers(3, 3 * max_codons + 4))
+        pool = bases if design == "random" else st.sampled_from("TTAAG")
+        s = "".join(draw(st.lists(pool, min_size=n, max_size=n)))
+    else:
+        ncod = draw(st.integers(min_codons, max_codons))
+        body = draw(st.lists(st.one_of(st.sampled_from(rich), st.sampled_from(sense)), min_size=ncod, max_size=ncod))
+        if stops and ncod > 1 and draw(st.integers(0, 4)) == 0:
+            body[draw(st.integers(0, ncod - 1))] = draw(st.sampled_from(stops))  # internal (or last-codon) stop
+        term = ""
+        if stops:
+            nstop = 2 if design == "double_stop" else draw(st.sampled_from([0, 1, 1]))
+            term = "".join(draw(st.sampled_from(stops)) for _ in range(nstop))
+        lead = "".join(draw(st.lists(bases, min_size=0, max_size=2)))
+        tail = "".join(draw(st.lists(bases, min_size=0, max_size=2)))
+        s = lead + "".join(body) + term + tail
+        if design == "orf_rc":
+            s = model_rc(s, rna=False)
+    if draw(st.integers(0, 3)) == 0:  # ambiguity codes at one or two positions
+        for _ in range(draw(st.integers(1, 2))):
+            i = draw(st.integers(0, len(s) - 1))
+            s = s[:i] + draw(st.sampled_from(AMBIG)) + s[i + 1 :]
+    return s
+
+
+@st.composite
+def frame_cases(draw):
+    code = draw(st.sampled_from(sorted(CODES)))
+    table = CODES[code][1]
+    rna = draw(st.integers(0, 3)) == 0
+    seqs = [draw(_draw_nuc_seq(table)) for _ in range(draw(st.integers(1, 3)))]
+    if rna:
+        seqs = [q.replace("T", "U") for q in seqs]
+    return {
+        "code": code,
+        "rna": rna,
+        "seqs": seqs,
+        "allow_rc": draw(st.booleans()),
+        "require_stop": draw(st.booleans()),
+        "trim": draw(st.booleans()),
+        "frame": draw(st.sampled_from([None, None, None, 1, 2, 3])),
+        "container": draw(st.sampled_from(["unaligned", "unaligned", "Alignment", "ArrayAlignment"])),
+    }
+
+
+FRAME_IDS = (1, 2, 3, -1, -2, -3)
+
+
+def model_frames(table, seq, rna):
+    """{frame id: translation} with the numbering of app.translate: k = 1,2,3 reads seq[k-1:], -k reads rc(seq)[k-1:]"""
+    rcs = model_rc_iupac(seq, rna)
+    out = {}
+    for k in range(3):
+        out[k + 1] = model_translate_x(table, seq, k)
+        out[-(k + 1)] = model_translate_x(table, rcs, k)
+    return out
+
+
+def frame_ok(tr: str, require_stop: bool) -> bool:
+    """best_frame docstring: a frame 'that has either no stops or a single terminal stop codon'; with require_stop
+    'a terminal stop must be present'"""
+    n = tr.count("*")
+    if require_stop:
+        return n == 1 and tr.endswith("*")
+    return n == 0 or (n == 1 and tr.endswith("*"))
+
+
+def model_selected(table, seq, rna, frame, trim):
+    """the sequence select_translatable returns for a reading frame: oriented, cut to whole codons from the frame start,
+    terminal stop codon removed when asked"""
+    t = seq if frame > 0 else model_rc_iupac(seq, rna)
+    k = abs(frame) - 1
+    n = (len(t) - k) // 3
+    t = t[k : k + 3 * n]
+    if trim and t and is_canonical(t[-3:].replace("U", "T")) and aa_of(table, t[-3:]) == "*":
+        t = t[:-3]
+    return t
+
+
+def exec_frames(case) -> Soft:
+    import cogent3
+    from cogent3 import make_aligned_seqs, make_seq, make_unaligned_seqs
+    from cogent3.app.composable import NotCompleted
+    from cogent3.app.translate import best_frame, translate_frames
+
+    s = Soft("C12/frames/")
+    cid, rna, seqs = case["code"], case["rna"], case["seqs"]
+    allow_rc, require_stop, trim, frame = case["allow_rc"], case["require_stop"], case["trim"], case["frame"]
+    table = CODES[cid][1]
+    mtn = "rna" if rna else "dna"
+    names = [f"s{i}" for i in range(len(seqs))]
+    considered = FRAME_IDS if allow_rc else FRAME_IDS[:3]
+    evals = 0
+    per_seq = {}
+    for name, seq in zip(names, seqs):
+        fr = model_frames(table, seq, rna)
+        what = f"code {cid} {seq!r} allow_rc={allow_rc}"
+        ok, obj = s.call("make_seq", make_seq, seq, name=name, moltype=mtn)
+        if not ok:
+            continue
+        # --- translate_frames: a Sequence, and a string with a moltype
+        want = [fr[f] for f in considered]
+        variants = [("translate_frames", lambda: translate_frames(obj, gc=cid, allow_rc=allow_rc))]
+        if name == names[0]:
+            variants.append(("translate_frames-str", lambda: translate_frames(seq, moltype=mtn, gc=cid, allow_rc=allow_rc)))
+        for label, call in variants:
+            evals += len(want)
+            okf, got = s.call(label, call)
+            if okf:
+                s.eq([str(x) for x in got], want, label, what)
+        # --- best_frame
+        for rs in (require_stop,):
+            valid = [f for f in considered if frame_ok(fr[f], rs)]
+            tag = "best_frame/require_stop" if rs else "best_frame"
+            evals += 1
+            okb, got = s.call(tag, best_frame, obj, cid, allow_rc, rs, allowed=(ValueError,))
+            if okb:
+                if not s.check(got in considered, tag + "/frame-id", f"{what} require_stop={rs}: returned {got!r}"):
+                    pass
+                elif got not in valid:
+                    tr = fr[got]
+                    if not rs and tr.count("*") == 2 and tr.endswith("**"):
+                        s.fail("best_frame/double-terminal-stop-accepted", f"{what}: returned frame {got} whose translation {tr!r} has two stop codons")
+                    else:
+                        s.fail(tag + "/bad-frame", f"{what} require_stop={rs}: returned frame {got} with translation {tr!r}; acceptable frames {valid}")
+            elif isinstance(got, ValueError) and valid:
+                s.fail(tag + "/valid-frame-rejected", f"{what} require_stop={rs}: ValueError({got}) although frames {valid} qualify: { {f: fr[f] for f in valid} }")
+            if len(valid) == 1:
+                s.cls("best_frame:unique")
+                if valid[0] < 0:
+                    s.cls("best_frame:unique-on-rc")
+            elif not valid:
+                s.cls("best_frame:none")
+            else:
+                s.cls("best_frame:several")
+        # --- what select_translatable must do with this sequence
+        if frame is None:
+            good = [f for f in considered if frame_ok(fr[f], False)]
+            double = [f for f in considered if fr[f].count("*") == 2 and fr[f].endswith("**")]
+        else:
+            # documented: "specify the coding frame"; a stop before the last codon of that frame excludes the sequence
+            good = [frame] if "*" not in fr[frame][:-1] else []
+            double = []
+        per_seq[name] = {
+            "keep": [model_selected(table, seq, rna, f, trim) for f in good],
+            "double": [model_selected(table, seq, rna, f, trim) for f in double],
+        }
+    if len(per_seq) != len(seqs):
+        return s
+    # --- select_translatable
+    data = dict(zip(names, seqs))
+    width = max(len(q) for q in seqs)
+    if case["container"] == "unaligned":
+        mk = lambda: make_unaligned_seqs(data, moltype=mtn)  # noqa: E731
+    else:
+        padded = {n: q + "-" * (width - len(q)) for n, q in data.items()}
+        mk = lambda: make_aligned_seqs(padded, moltype=mtn, array_align=case["container"] == "ArrayAlignment")  # noqa: E731
+    okm, coll = s.call("construct", mk)
+    oka, app = s.call("get_app", lambda: cogent3.get_app("select_translatable", moltype=mtn, gc=cid, allow_rc=allow_rc, trim_terminal_stop=trim, frame=frame))
+    if okm and oka:
+        what = f"code {cid} {data} allow_rc={allow_rc} trim_terminal_stop={trim} frame={frame} ({case['container']})"
+        evals += len(seqs)
+        okr, res = s.call("select_translatable", app, coll)
+        want_kept = [n for n in names if per_seq[n]["keep"]]
+        if okr and isinstance(res, NotCompleted):
+            if want_kept:
+                sure = [n for n in want_kept]
+                s.fail("select_translatable/not-completed", f"{what}: {res.type} {str(res.message)[-200:]!r}; expected to keep {sure}")
+            else:
+                s.cls("select:none-kept")
+                # main() builds NotCompleted("FALSE", ...): nothing translatable is a negative result, not a failure
+                s.check(res.type == "FALSE", "select_translatable/none-translatable-is-ERROR", f"{what}: NotCompleted type {res.type!r}: {str(res.message)[-300:]!r}")
+        elif okr:
+            okd, got = s.call("select_translatable/to_dict", lambda: {n: str(v) for n, v in res.to_dict().items()})
+            if okd:
+                for n in names:
+                    exp = per_seq[n]
+                    if n in got:
+                        if got[n] in exp["keep"]:
+                            continue
+                        if not exp["keep"] and got[n] in exp["double"]:
+                            s.fail("select_translatable/double-terminal-stop-kept", f"{what}: {n} returned as {got[n]!r}, its translation ends with two stop codons")
+                        elif not exp["keep"]:
+                            s.fail("select_translatable/untranslatable-kept", f"{what}: {n} returned as {got[n]!r} but no considered frame is free of internal stops")
+                        else:
+                            s.fail("select_translatable/wrong-sequence", f"{what}: {n} returned as {got[n]!r}; expected one of {exp['keep']}")
+                    elif exp["keep"]:
+                        s.fail("select_translatable/translatable-dropped", f"{what}: {n} missing; expected one of {exp['keep']}")
+                s.eq(sorted(set(got) - set(names)), [], "select_translatable/names", what)
+                if set(got) == set(want_kept):
+                    oke, errs = s.call("select_translatable/translation_errors", lambda: [e[0] for e in res.info["translation_errors"]])
+                    if oke:
+                        s.eq(errs, [n for n in names if n not in want_kept], "select_translatable/translation_errors", f"{what}: names recorded in info.translation_errors")
+                    s.cls("select:some-dropped" if len(want_kept) < len(names) else "select:all-kept")
+                okl, lab = s.call("select_translatable/moltype", lambda: res.moltype.label)
+                if okl:
+                    s.eq(lab, mtn, "select_translatable/moltype", what)
+    s.evals = evals
+    s.nontrivial = True
+    s.cls("rna" if rna else "dna", f"frame={frame}", f"allow_rc={allow_rc}", case["container"])
+    if cid != 1:
+        s.cls("non-standard-code")
+    if any(set(q) - set("ACGTU") for q in seqs):
+        s.cls("ambiguity-codes")
+    return s
+
+
+# --------------------------- sub: collections (rows differ; ambiguity codes)
+@st.composite
+def coll_cases(draw):
+    code = draw(st.sampled_from(sorted(CODES)))
+    table = CODES[code][1]
+    rna = draw(st.integers(0, 3)) == 0
+    codons = _all_codons()
+    sense = [c for c in codons if aa_of(table, c) != "*"]
+    stops = [c for c in codons if aa_of(table, c) == "*"]
+    equal = draw(st.booleans())
+    nrows = draw(st.integers(2, 3))
+    shared_n = draw(st.integers(2, 8))
+    shared_tail = draw(st.sampled_from([0, 0, 0, 1, 2]))
+    rows = []
+    for _ in range(nrows):
+        ncod = shared_n if equal else draw(st.integers(1, 8))
+        tail = shared_tail if equal else draw(st.sampled_from([0, 0, 0, 1, 2]))
+        body = draw(st.lists(st.sampled_from(sense), min_size=ncod, max_size=ncod))
+        if stops:
+            ending = draw(st.sampled_from(["none", "none", "stop", "stop", "double", "internal"]))
+            if ending == "stop":
+                body[-1] = draw(st.sampled_from(stops))
+            elif ending == "double" and ncod >= 2:
+                body[-1] = draw(st.sampled_from(stops))
+                body[-2] = draw(st.sampled_from(stops))
+            elif ending == "internal" and ncod >= 2:
+                body[draw(st.integers(0, ncod - 2))] = draw(st.sampled_from(stops))
+        row = "".join(body) + "".join(draw(st.lists(st.sampled_from(BASES), min_size=tail, max_size=tail)))
+        if draw(st.integers(0, 2)) == 0:
+            for _ in range(draw(st.integers(1, 2))):
+                i = draw(st.integers(0, len(row) - 1))
+                row = row[:i] + draw(st.sampled_from(AMBIG)) + row[i + 1 :]
+        rows.append(row.replace("T", "U") if rna else row)
+    opts = draw(st.lists(st.integers(0, 7), min_size=3, max_size=3, unique=True))  # indexes into OPTS
+    return {"code": code, "rna": rna, "rows": rows, "opts": sorted(opts)}
+
+
+def exec_coll(case) -> Soft:
+    import cogent3
+    from cogent3 import make_aligned_seqs, make_seq, make_unaligned_seqs
+
+    s = Soft("C12/coll/")
+    cid, rna, rows = case["code"], case["rna"], case["rows"]
+    table = CODES[cid][1]
+    mtn = "rna" if rna else "dna"
+    data = {f"r{i}": r for i, r in enumerate(rows)}
+    equal = len({len(r) for r in rows}) == 1
+    opts = [OPTS[i] for i in case["opts"]]
+    evals = 0
+
+    def terminal_stop(r):
+        c = r[-3:].replace("U", "T")
+        return len(r) % 3 == 0 and len(r) >= 3 and is_canonical(c) and aa_of(table, c) == "*"
+
+    # --- single sequences (ambiguity codes; old/new)
+    for n, r in data.items():
+        for impl in ("old", "new"):
+            ok, obj = s.call(f"{impl}/make_seq", make_seq, r, name=n, moltype=mtn, new_type=impl == "new")
+            if not ok:
+                continue
+            for inc, trim, incomplete in opts:
+                want = model_get_translation_iupac(table, r, impl, inc, trim, incomplete)
+                if want is None:
+                    continue
+                evals += 1
+                _cmp(
+                    s,
+                    f"{impl}/seq.get_translation",
+                    f"code {cid} {r!r} include_stop={inc} trim_stop={trim} incomplete_ok={incomplete}",
+                    lambda: obj.get_translation(gc=cid, include_stop=inc, trim_stop=trim, incomplete_ok=incomplete),
+                    want,
+                )
+    # --- containers
+    makers = [
+        ("old/SequenceCollection", "old", False, lambda: make_unaligned_seqs(data, moltype=mtn)),
+        ("new/SequenceCollection", "new", False, lambda: make_unaligned_seqs(data, moltype=mtn, new_type=True)),
+    ]
+    if equal:
+        makers += [
+            ("old/Alignment", "old", True, lambda: make_aligned_seqs(data, moltype=mtn, array_align=False)),
+            ("old/ArrayAlignment", "old", True, lambda: make_aligned_seqs(data, moltype=mtn, array_align=True)),
+        ]
+    for label, impl, aligned, mk in makers:
+        okm, coll = s.call(label + "/construct", mk)
+        if not okm:
+            continue
+        for inc, trim, incomplete in opts:
+            wants = {n: model_get_translation_iupac(table, r, impl, inc, trim, incomplete) for n, r in data.items()}
+            if any(w is not None and w[0] == "raise" for w in wants.values()):
+                want = ("raise", "a row is rejected")
+            elif any(w is None for w in wants.values()):
+                continue
+            else:
+                # alignments keep their length: a trimmed terminal stop becomes a gap
+                trimming = trim and not inc
+                exp = {n: w[1] + ("-" if aligned and trimming and terminal_stop(data[n]) else "") for n, w in wants.items()}
+                want = ("ok", repr(sorted(exp.items())))
+            evals += 1
+            _cmp(
+                s,
+                f"{label}.get_translation",
+                f"code {cid} rows {data} include_stop={inc} trim_stop={trim} incomplete_ok={incomplete}",
+                lambda: repr(sorted((n, str(v)) for n, v in coll.get_translation(gc=cid, include_stop=inc, trim_stop=trim, incomplete_ok=incomplete).to_dict().items())),
+                want,
+            )
+        # has_terminal_stop / trim_stop_codons; rows whose length is not a multiple of three are left alone unless strict
+        any_stop = any(terminal_stop(r) for r in rows)
+        divisible = all(len(r) % 3 == 0 for r in rows)
+        evals += 2
+        _cmp(s, f"{label}.has_terminal_stop", f"code {cid} rows {data}", lambda: str(bool(coll.has_terminal_stop(gc=cid))), ("ok", str(any_stop)))
+        trimmed = {n: (r[:-3] + ("---" if aligned else "")) if terminal_stop(r) else r for n, r in data.items()}
+        _cmp(
+            s,
+            f"{label}.trim_stop_codons",
+            f"code {cid} rows {data}",
+            lambda: repr(sorted((n, str(v)) for n, v in coll.trim_stop_codons(gc=cid).to_dict().items())),
+            ("ok", repr(sorted(trimmed.items()))),
+        )
+        if not divisible:
+            _cmp(s, f"{label}.trim_stop_codons-strict", f"code {cid} rows {data} strict=True", lambda: coll.trim_stop_codons(gc=cid, strict=True), ("raise", "a row length is not divisible by 3"))
+    # --- the translate_seqs app: get_translation(gc, trim_stop=trim_terminal_stop) of old-style containers
+    for label, aligned, mk in [(m[0], m[2], m[3]) for m in makers if m[1] == "old" and "Array" not in m[0]]:
+        okm, coll = s.call("app/construct", mk)
+        if not okm:
+            continue
+        for trim in (True, False):
+            oka, app = s.call("app/get_app", lambda: cogent3.get_app("translate_seqs", moltype=mtn, gc=cid, trim_terminal_stop=trim))
+            if not oka:
+                continue
+            wants = {n: model_get_translation_iupac(table, r, "old", False, trim, False) for n, r in data.items()}
+            rejected = any(w is not None and w[0] == "raise" for w in wants.values())
+            if not rejected and any(w is None for w in wants.values()):
+                continue
+            evals += 1
+            what = f"code {cid} rows {data} trim_terminal_stop={trim} ({label})"
+            okr, res = s.call("app/translate_seqs", app, coll)
+            if not okr:
+                continue
+            if rejected:
+                s.check(not bool(res), "app/translate_seqs/accepted", f"{what}: expected NotCompleted, got {res!r}"[:400])
+            elif s.check(bool(res), "app/translate_seqs/not-completed", f"{what}: {res!r}"[:400]):
+                exp = {n: w[1] + ("-" if aligned and trim and terminal_stop(data[n]) else "") for n, w in wants.items()}
+                s.eq(sorted((n, str(v)) for n, v in res.to_dict().items()), sorted(exp.items()), "app/translate_seqs", what)
+    s.evals = evals
+    s.nontrivial = True
+    s.cls("rna" if rna else "dna", "equal-length" if equal else "ragged")
+    if len({terminal_stop(r) for r in rows}) == 2:
+        s.cls("rows differ in terminal stop")
+    if any(set(r) - set("ACGTU") for r in rows):
+        s.cls("ambiguity-codes")
+    if cid != 1:
+        s.cls("non-standard-code")
     return s
 
 
@@ -472,16 +1109,19 @@ def exec_translate(case) -> Soft:
 SUBS = [
     Sub("tables", exec_table, enumerate=enum_tables, exhaustive=True),
     Sub("complement", exec_complement, enumerate=enum_complement, exhaustive=True),
+    Sub("protein", exec_protein, enumerate=enum_protein, exhaustive=True),
     Sub("rc", exec_rc, strategy=rc_cases(), quick=1500, thorough=160_000, shards_quick=8),
     Sub("translate", exec_translate, strategy=translate_cases(), quick=1600, thorough=320_000, shards_quick=16),
+    Sub("collections", exec_coll, strategy=coll_cases(), quick=640, thorough=160_000, shards_quick=16),
+    Sub("frames", exec_frames, strategy=frame_cases(), quick=800, thorough=240_000, shards_quick=16),
 ]
 
 KNOWN_PREDICATES = {}
 
 # thorough tier: coverage-guided campaigns (atheris/libFuzzer mutating the bytes Hypothesis draws from)
 FUZZ = {
-    "subs": ['rc', 'translate'],
-    "targets": ['cogent3.core.genetic_code', 'cogent3.core.new_genetic_code', 'cogent3.core.moltype', 'cogent3.core.new_moltype', 'cogent3.core.sequence', 'cogent3.core.new_sequence'],
+    "subs": ['rc', 'translate', 'frames'],
+    "targets": ['cogent3.core.genetic_code', 'cogent3.core.new_genetic_code', 'cogent3.core.moltype', 'cogent3.core.new_moltype', 'cogent3.core.sequence', 'cogent3.core.new_sequence', 'cogent3.app.translate'],
     "execs_thorough": 40_000, "jobs_thorough": 4, "execs_quick": 1000, "jobs_quick": 2,
 }
 
